@@ -7,11 +7,13 @@ from sa.model import AnalysisError
 from sa.ctx import Ctx
 from sa.cfg import NORMAL, describe_path
 from sa.report import Report
-from sa.util import cfg_root, node_has_call
+from sa.util import cfg_root, node_has_call, node_stores_attr, fact_in, local_assigned_from
 from sa import pat
 
 
 def _conj(e):
+    from sa.guards import nnf
+    e = nnf(e)              # one spelling whatever De Morgan form the source uses
     if isinstance(e, ast.BoolOp) and isinstance(e.op, ast.And):
         out = []
         for v in e.values:
@@ -183,3 +185,381 @@ def refresh_stamp_after_fetch(ctx: Ctx, rep: Report, rid: str):
     rep.check(rid, "get_latest|stamp-after-fetch", f, pth is None, "_last_gotten stored only after the refresh returned",
               "the refresh stamp can be stored before / without the provider refresh: a refresh that fails (temporary error, disconnect) is booked as done and the retry acts on stale state",
               witness=describe_path(pth) if pth else None)
+
+
+def dir_delete_rechecks_kids(ctx: Ctx, rep: Report, rid: str):
+    """_handle_dir_delete_not_empty: the children found under the deleted folder, and the folder itself, are force-synced on the side of
+    the delete. `mark_changed()` alone is not enough: nothing changed for them, so sync() would clear the flag again."""
+    hd = ctx.prog.func("SyncManager._handle_dir_delete_not_empty")
+    loops = [n for n in ctx.own_nodes(hd) if isinstance(n, ast.For) and pat.match("self.state.get_kids($P, $S)", n.iter) is not None]
+    done = 0
+    for lp in loops:
+        m = pat.match("self.state.get_kids($P, $S)", lp.iter)
+        kid = lp.target.elts[0].id if isinstance(lp.target, ast.Tuple) and isinstance(lp.target.elts[0], ast.Name) else (lp.target.id if isinstance(lp.target, ast.Name) else None)
+        calls = [x for b in lp.body for x in ast.walk(b) if isinstance(x, ast.Call) and isinstance(x.func, ast.Attribute) and pat.match("%s[$X]" % kid, x.func.value) is not None]
+        marks = [x for x in calls if x.func.attr in ("set_force_sync", "mark_changed", "mark_dirty")]
+        if not marks:
+            continue        # the other loop over the kids (it only inspects them)
+        done += 1
+        forced = [x for x in marks if x.func.attr == "set_force_sync"]
+        if not forced:
+            rep.violation(rid, "_handle_dir_delete_not_empty|kids", ctx.line(hd, marks[0]),
+                          "the children of the folder whose delete is deferred are only `%s` - not force-synced: sync() drops the mark (`needs_sync()` is false for an "
+                          "unchanged child), the children are never re-examined and the folder delete gives up" % ast.unparse(marks[0]))
+            continue
+        for c_ in forced:
+            m2 = pat.match("%s[$X].set_force_sync()" % kid, c_)
+            pm = pat.match("$E[$PS].path", m["P"])
+            okk = m2 is not None and pat.same(m2["X"], m["S"]) and (pm is None or pat.same(pm["PS"], m["S"]))
+            rep.check(rid, "_handle_dir_delete_not_empty|kids", ctx.line(hd, c_), okk, "kids of side %s force-synced on side %s" % (ast.unparse(m["S"]), ast.unparse(m2["X"]) if m2 else "?"),
+                      "the children found under the deleted folder on side `%s` are marked for re-check on side `%s`: their state on the deleting side is never refreshed, the "
+                      "folder delete gives up and the folder is re-created / the delete is lost" % (ast.unparse(m["S"]), ast.unparse(m2["X"]) if m2 else "?"))
+    if done == 0:
+        raise AnalysisError("_handle_dir_delete_not_empty: the loop that marks the children was not found")
+    # the folder itself: after the kids loop, force-synced on the same side before PUNT
+    chn = hd.params()[2]
+    own = [x for x in ctx.own_nodes(hd) if isinstance(x, ast.Call) and pat.match("%s[%s].set_force_sync()" % (hd.params()[1], chn), x) is not None]
+    rep.check(rid, "_handle_dir_delete_not_empty|self", hd, bool(own), "the folder is force-synced too (it is retried after its children)",
+              "the folder entry itself is no longer force-synced: once its children are gone nothing brings the folder delete back")
+
+
+def data_rows_follow_storage(ctx: Ctx, rep: Report, rid: str):
+    """The per-tag data rows (cursor, walk marker) are managed from what STORAGE holds, not from the in-memory id cache alone:
+    storage_delete_tag enumerates the tag's rows with read_all and deletes each; storage_update_data fills the cache from storage
+    (storage_get_data) before it decides between update and create."""
+    st = ctx.prog.cls("SyncState")
+    f = st.methods["storage_delete_tag"]
+    tagp = f.params()[1]
+    ok, detail = False, "no loop over the stored rows"
+    defs = {n.targets[0].id: n.value for n in ctx.own_nodes(f) if isinstance(n, ast.Assign) and isinstance(n.targets[0], ast.Name)}
+    for lp in [n for n in ctx.own_nodes(f) if isinstance(n, ast.For)]:
+        src = lp.iter
+        while True:
+            if isinstance(src, ast.Call) and isinstance(src.func, ast.Attribute) and src.func.attr in ("items", "keys", "copy") and not src.args:
+                src = src.func.value
+            elif isinstance(src, ast.Call) and isinstance(src.func, ast.Name) and src.func.id in ("list", "tuple", "sorted", "set") and src.args:
+                src = src.args[0]
+            elif isinstance(src, ast.Name) and src.id in defs:
+                src = defs[src.id]
+            else:
+                break
+        if pat.match("self._storage.read_all(%s)" % tagp, src) is None:
+            continue
+        var = lp.target.elts[0] if isinstance(lp.target, ast.Tuple) else lp.target
+        if isinstance(var, ast.Name) and any(isinstance(x, ast.Call) and pat.match("self._storage.delete(%s, %s)" % (tagp, var.id), x) is not None for b in lp.body for x in ast.walk(b)):
+            facts = ctx.facts_at(f, lp)
+            cached = [t for (t, p) in facts if "data_id" in t]
+            ok, detail = not cached, "every row read_all(tag) returns is deleted" + (" - but only under %s" % cached if cached else "")
+    rep.check(rid, "storage_delete_tag|all-rows", f, ok, detail,
+              "storage_delete_tag does not delete every stored row of the tag (%s): a row whose id was never cached in this run - e.g. the walk marker after a restart "
+              "with a missing cursor - survives, so 'forgetting' it is a silent no-op" % detail)
+    u = st.methods["storage_update_data"]
+    tagu = u.params()[1]
+    g = ctx.cfg(u)
+    fill = lambda n: node_has_call(n, "self.storage_get_data(%s)" % tagu) or node_has_call(n, "self._storage.read_all(%s)" % tagu)   # noqa: E731
+    writes = [n for n in g.nodes if node_has_call(n, "self._storage.create(%s, $$$)" % tagu) or node_has_call(n, "self._storage.update(%s, $$$)" % tagu)]
+    if not writes:
+        raise AnalysisError("storage_update_data: no storage write found")
+    pth = g.reach([g.entry.id], lambda n: n in writes, avoid=fill, follow=NORMAL)
+    rep.check(rid, "storage_update_data|cache-filled-first", u, pth is None, "the tag's rows are looked up in storage before update/create is chosen",
+              "storage_update_data chooses between update and create from the in-memory id cache only: after a restart a tag that is written before it was read "
+              "gets a second row, and the next read finds two", witness=describe_path(pth) if pth else None)
+
+
+def first_init_completes_before_flag(ctx: Ctx, rep: Report, rid: str):
+    """EventManager._do_first_init: `_first_do = False` is the LAST effect of the block - no provider / state call can run (and fail) after
+    it, so a first step that failed is repeated in full (the stored cursor is pushed into the provider again)."""
+    f = ctx.prog.func("EventManager._do_first_init")
+    g = ctx.cfg(f)
+    st = [n for n in g.nodes if node_stores_attr(n, "_first_do", "False")]
+    if not st:
+        raise AnalysisError("_do_first_init no longer clears _first_do")
+
+    def effect(n):
+        r = cfg_root(n)
+        if r is None:
+            return False
+        for s in ctx.sites(f):
+            if s.kind in ("call", "setter", "setattr") and any(x is s.node for x in ast.walk(r)):
+                nm = ast.unparse(s.node.func) if isinstance(s.node, ast.Call) else ""
+                if nm.startswith("log."):
+                    continue
+                return True
+        return any(isinstance(x, ast.Attribute) and isinstance(x.ctx, ast.Store) and pat.match("self.provider", x.value) is not None for x in ast.walk(r))
+    pth = g.reach([n.id for n in st], effect, follow=NORMAL)
+    rep.check(rid, "_do_first_init|flag-last", f, pth is None, "_first_do cleared after the last fallible operation",
+              "the first-step flag is cleared before the cursor restore ran: if that call fails once (disconnect, token, temporary error) the retry skips it, "
+              "the provider stays positioned at 'now' and the fresh cursor overwrites the stored one - everything that changed while the engine was down is skipped",
+              witness=describe_path(pth) if pth else None)
+
+
+def subpath_lengths_are_normalised(ctx: Ctx, rep: Report, rid: str):
+    """Provider.is_subpath: every len(...) that positions the boundary test or cuts the relative part measures a separator-normalised
+    value, never a raw argument (a raw `/root/` is one longer than its normalised form: inside paths are rejected, `/roots/x` accepted)."""
+    f = ctx.prog.func("Provider.is_subpath")
+    raw = set(f.params()[1:3])
+    n = 0
+    for x in ctx.own_nodes(f):
+        if isinstance(x, ast.Call) and isinstance(x.func, ast.Name) and x.func.id == "len" and len(x.args) == 1:
+            n += 1
+            a = x.args[0]
+            rep.check(rid, "is_subpath|len(%s)" % ast.unparse(a), ctx.line(f, x), not (isinstance(a, ast.Name) and a.id in raw), "length of a normalised value",
+                      "`len(%s)` measures the raw argument: with a trailing or repeated separator the boundary index is off - paths inside the folder are rejected and a "
+                      "name-prefix sibling (`/roots/x` for `/root/`) is accepted" % ast.unparse(a))
+    if n < 2:
+        raise AnalysisError("is_subpath: the length computations of the boundary test were not found")
+
+
+def start_rechecks_after_join(ctx: Ctx, rep: Report, rid: str):
+    """Runnable.start: after the grace join the old thread is tested again; a Thread is created only past an is_alive() test that came after
+    every join - one manager never runs two loop threads."""
+    f = ctx.prog.cls("Runnable").methods["start"]
+    g = ctx.cfg(f)
+    th = [n for n in g.nodes if node_has_call(n, "threading.Thread($$$)")]
+    joins = [n for n in g.nodes if node_has_call(n, "$T.join($$$)")]
+    alive = [n for n in g.nodes if n.kind == "test" and any(isinstance(x, ast.Call) and isinstance(x.func, ast.Attribute) and x.func.attr == "is_alive" for x in ast.walk(n.ast))]
+    if not th:
+        raise AnalysisError("Runnable.start no longer creates a thread")
+    pth = g.reach([g.entry.id] + [j.id for j in joins], lambda n: n in th, avoid=lambda n: n in alive, follow=NORMAL)
+    # the true edge of the LAST alive test must not lead to thread creation
+    bad = None
+    for a in alive:
+        t_succ = [b for (b, l) in g.succ[a.id] if l == "T"]
+        p2 = g.reach(t_succ, lambda n: n in th, avoid=lambda n: n in alive, follow=NORMAL, include_src=True)
+        if p2 is not None:
+            bad = p2
+    rep.check(rid, "start|alive-rechecked", f, pth is None and bad is None, "Thread(...) only past an is_alive() test that follows every join",
+              "start() can create a second loop thread while the old one is still running (no is_alive() re-check after the grace join): two threads drive one manager, "
+              "stop()/wait() joins only the newest", witness=describe_path(pth or bad) if (pth or bad) else None)
+
+
+def walk_dedupe_is_exact(ctx: Ctx, rep: Report, rid: str):
+    """_process_event: a walk event is dropped as 'nothing new' only when hash AND path are EXACTLY equal to what the state holds (`!=` on the
+    raw values); a comparison modulo case / separators would drop a case-only rename found by a walk."""
+    f = ctx.prog.func("EventManager._process_event")
+    chg = [n for n in ctx.own_nodes(f) if isinstance(n, ast.Assign) and isinstance(n.targets[0], ast.Name) and isinstance(n.value, ast.BoolOp)
+           and {"hash", "path"} <= {x.attr for x in ast.walk(n.value) if isinstance(x, ast.Attribute)}]
+    if len(chg) != 1:
+        raise AnalysisError("_process_event: the `changed = hash differs or path differs` computation was not found")
+    v = chg[0].value
+    ok = isinstance(v.op, ast.Or)
+    seen = set()
+    for d in v.values:
+        e = d
+        neg = False
+        if isinstance(e, ast.UnaryOp) and isinstance(e.op, ast.Not):
+            e, neg = e.operand, True
+        good = isinstance(e, ast.Compare) and len(e.ops) == 1 and isinstance(e.ops[0], ast.Eq if neg else ast.NotEq) and \
+            isinstance(e.left, ast.Attribute) and isinstance(e.comparators[0], ast.Attribute) and e.left.attr == e.comparators[0].attr
+        if good:
+            seen.add(e.left.attr)
+        ok = ok and good
+    rep.check(rid, "_process_event|walk-dedupe-exact", ctx.line(f, chg[0]), ok and {"hash", "path"} <= seen, "hash != hash or path != path (raw values)",
+              "the walk filter compares `%s`: not an exact comparison of hash and path - a change that differs only in case / separators (a case-only rename seen through "
+              "a walk after a lost cursor) is dropped as 'already known'" % ast.unparse(v)[:140])
+
+
+def parent_recorded_when_provider_knows_it(ctx: Ctx, rep: Report, rid: str):
+    """handle_cloud_file_not_found_error: when the state knows nothing at the parent's path but the provider does, the parent's id and path are
+    recorded under no further condition (this is what corrects a known folder's stale path when its rename event is late)."""
+    f = ctx.prog.func("SyncManager.handle_cloud_file_not_found_error")
+    ups = [n for n in ctx.own_nodes(f) if isinstance(n, ast.Call) and pat.match("self.state.update($S, DIRECTORY, $I.oid, $$$)", n) is not None]
+    if not ups:
+        rep.violation(rid, "handle_cloud_file_not_found_error|record-parent", f, "the parent folder found at the provider is no longer recorded in the state")
+        return
+    from sa.util import extra_facts
+    info = local_assigned_from(ctx, f, "self.providers[$S].info_path($P)") or "info"
+    ents = local_assigned_from(ctx, f, "self.state.lookup_path($S, $P)") or "ents"
+    for u in ups:
+        facts = ctx.facts_at(f, u)
+        extra = extra_facts(facts, [(info, True), (ents, False), ("$S.priority > $N", False)])
+        rep.check(rid, "handle_cloud_file_not_found_error|record-parent", ctx.line(f, u), fact_in(facts, info, True) and not extra, "recorded whenever the provider knows the parent",
+                  "the parent found at the provider is recorded only under the extra condition(s) %s: a folder the state already knows by id keeps its stale path, the child is "
+                  "punted until it is given up" % (extra or sorted(facts)))
+
+
+def temp_rename_on_moved_entry(ctx: Ctx, rep: Report, rid: str):
+    """rename_to_fix_conflict: each update_entry(E, oid=new id) is followed, under temp_rename, by E.ignore(TEMP_RENAME) for the same E."""
+    rf = ctx.prog.func("SyncManager.rename_to_fix_conflict")
+    g = ctx.cfg(rf)
+    ups = [c_ for c_ in ctx.calls(rf, "update_entry") if c_.args]
+    if not ups:
+        raise AnalysisError("rename_to_fix_conflict: update_entry calls not found")
+    tr = rf.params()[4] if len(rf.params()) > 4 else "temp_rename"
+    tests = {t.id for t in g.nodes if t.kind == "test" and pat.match(tr, t.ast) is not None}
+    for u in ups:
+        e_ = ast.unparse(u.args[0])
+        un = g.stmt_nodes_containing(u)
+        flag = lambda n, e_=e_: node_has_call(n, "%s.ignore(IgnoreReason.TEMP_RENAME)" % e_)   # noqa: E731
+        pth = g.reach([x.id for x in un], lambda n: n is g.exit, avoid=flag, follow=lambda a, b, l: l != "exc" and not (a in tests and l == "F"))
+        rep.check(rid, "rename_to_fix_conflict|%s" % e_, ctx.line(rf, u), pth is None, "%s.ignore(TEMP_RENAME) follows update_entry(%s, ...) under temp_rename" % (e_, e_),
+                  "the entry whose file was renamed away (`%s`) is not the one flagged TEMP_RENAME" % e_, witness=describe_path(pth) if pth else None)
+
+
+def event_application_writes_through(ctx: Ctx, rep: Report, rid: str):
+    """SyncState.update / update_entry - how an event becomes state: every field the event carries is written to the side the event came
+    from (and to no other side), guarded by nothing but 'the event carries it'; the entry is looked up on that side, created only when
+    unknown, and always marked changed."""
+    from sa.util import extra_facts
+    ue = ctx.prog.func("SyncState.update_entry")
+    ps = ue.params()
+    ent, side = ps[1], ps[2]
+    # 1. one side only
+    for n in ctx.own_nodes(ue):
+        if isinstance(n, ast.Subscript) and isinstance(n.value, ast.Name) and n.value.id == ent:
+            ok = isinstance(n.slice, ast.Name) and n.slice.id == side
+            if not ok:
+                rep.violation(rid, "update_entry|side|%s" % ast.unparse(n), ctx.line(ue, n), "update_entry touches `%s`: the information of an event of side `%s` is written to / read "
+                              "from another side of the entry" % (ast.unparse(n), side))
+    rep.ok(rid, "update_entry|one-side", ue, "every ent[...] access uses the `%s` parameter" % side) if not any(i.rule == rid and i.verdict == "violation" for i in rep.instances) else None
+    # 2. parameter -> field table
+    table = {"oid": "oid", "otype": "otype", "size": "size", "mtime": "mtime", "path": "path", "file_hash": "hash"}
+    allp = ue.all_param_names() if hasattr(ue, "all_param_names") else ps
+    defs = {}
+    for n in ctx.own_nodes(ue):
+        if isinstance(n, ast.Assign) and isinstance(n.targets[0], ast.Name):
+            defs.setdefault(n.targets[0].id, []).append(n.value)
+    for par, fld in table.items():
+        if par not in allp:
+            raise AnalysisError("update_entry lost its `%s` parameter" % par)
+        stores = [n for n in ctx.own_nodes(ue) if isinstance(n, ast.Assign) and pat.match("%s[%s].%s" % (ent, side, fld), n.targets[0]) is not None]
+        good, detail = False, "no store to %s[%s].%s" % (ent, side, fld)
+        for st_ in stores:
+            v = st_.value
+            src = {x.id for x in ast.walk(v) if isinstance(x, ast.Name)}
+            for nm in list(src):
+                for d in defs.get(nm, []):
+                    src |= {x.id for x in ast.walk(d) if isinstance(x, ast.Name)}
+            if par not in src:
+                detail = "`%s` does not store the `%s` argument" % (ast.unparse(st_), par)
+                continue
+            facts = ctx.facts_at(ue, st_)
+            extra = extra_facts(facts, [("%s is None" % par, False), ("$A == $B", False)])
+            need = fact_in(facts, "%s is None" % par, False)
+            good = need and not extra
+            detail = "stored under %s" % sorted(facts)
+        rep.check(rid, "update_entry|%s->%s" % (par, fld), ue, good, detail,
+                  "an event's `%s` is not written through to %s[%s].%s exactly when the event carries it (%s): the state keeps a stale %s and the engine acts on it" % (par, ent, side, fld, detail, fld))
+    # 3. exists: every path stores it; the tombstone-protecting arm is exact
+    g = ctx.cfg(ue)
+    ex_st = [n for n in g.nodes if cfg_root(n) is not None and isinstance(cfg_root(n), ast.Assign) and pat.match("%s[%s].exists" % (ent, side), cfg_root(n).targets[0]) is not None]
+    pth = g.reach([g.entry.id], lambda n: n is g.exit, avoid=lambda n: n in ex_st, follow=NORMAL)
+    plain = [n for n in ex_st if isinstance(cfg_root(n).value, ast.Name) and cfg_root(n).value.id == "exists"]
+    likely = [n for n in ex_st if ast.unparse(cfg_root(n).value) == "LIKELY_TRASHED"]
+    okl = all(set(ctx.facts(ue).facts(n)) >= {("%s[%s].exists is TRASHED" % (ent, side), True), ("exists is True", True)} and
+              not extra_facts(ctx.facts(ue).facts(n), [("%s[%s].exists is TRASHED" % (ent, side), True), ("exists is True", True)]) for n in likely)
+    rep.check(rid, "update_entry|exists", ue, pth is None and bool(plain) and okl, "existence written on every path; LIKELY_TRASHED only for TRASHED + exists",
+              "the event's existence flag is not written through on every path (or the re-creation guard changed): a delete / re-create reported by the provider is ignored",
+              witness=describe_path(pth) if pth else None)
+    # 4. marked changed exactly when asked
+    mc = [n for n in ctx.own_nodes(ue) if isinstance(n, ast.Call) and pat.match("self.mark_changed(%s, %s)" % (side, ent), n) is not None]
+    okm = bool(mc) and all(set(ctx.facts_at(ue, n)) == {("changed", True)} for n in mc)
+    rep.check(rid, "update_entry|mark_changed", ue, okm, "mark_changed(side, ent) under `changed`", "update_entry no longer marks the entry changed on the event's side exactly when asked to")
+    # ---- update(): look-up, creation, hand-over
+    up = ctx.prog.func("SyncState.update")
+    us = up.params()[1]
+    for n in ctx.own_nodes(up):
+        if isinstance(n, ast.Call) and isinstance(n.func, ast.Attribute) and n.func.attr in ("lookup_oid", "lookup_path") and pat.match("self", n.func.value) is not None:
+            rep.check(rid, "update|%s" % ast.unparse(n)[:50], ctx.line(up, n), bool(n.args) and isinstance(n.args[0], ast.Name) and n.args[0].id == us, "look-up on the event's side",
+                      "`%s` looks the event's object up on another side" % ast.unparse(n))
+    gu = ctx.cfg(up)
+    calls = [n for n in ctx.own_nodes(up) if isinstance(n, ast.Call) and pat.match("self.update_entry($$$)", n) is not None]
+    if not calls:
+        rep.violation(rid, "update|hand-over", up, "update() no longer hands the event to update_entry")
+        return
+    cn = [x for c_ in calls for x in gu.stmt_nodes_containing(c_)]
+    pth = gu.reach([gu.entry.id], lambda n: n is gu.exit, avoid=lambda n: n in cn, follow=NORMAL)
+    want = {"path": "path", "file_hash": "hash", "exists": "exists", "otype": "otype", "size": "size", "mtime": "mtime"}
+    for c_ in calls:
+        kw = {k.arg: k.value for k in c_.keywords}
+        pos = [ast.unparse(a) for a in c_.args[:3]]
+        okk = len(pos) == 3 and pos[1] == us and pos[2] == up.params()[3] and all(isinstance(kw.get(k), ast.Name) and kw[k].id == v for k, v in want.items())
+        ch = kw.get("changed")
+        okc = ch is not None and not (isinstance(ch, ast.Constant) and not ch.value)
+        rep.check(rid, "update|hand-over", ctx.line(up, c_), okk and okc and pth is None, "every event field handed to update_entry by name, changed=<now>",
+                  "update() does not hand every field of the event to update_entry on every path (positional %s, keywords %s): part of the event is dropped / the entry is not marked changed" %
+                  (pos, sorted((k, ast.unparse(v)) for k, v in kw.items())), witness=describe_path(pth) if pth else None)
+    new = [n for n in ctx.own_nodes(up) if isinstance(n, ast.Assign) and isinstance(n.value, ast.Call) and pat.match("SyncEntry(self, $T)", n.value) is not None]
+    okn = bool(new) and all(set(ctx.facts_at(up, n)) == {(ast.unparse(n.targets[0]), False)} for n in new)
+    rep.check(rid, "update|create-when-unknown", up, okn, "a new entry exactly when the look-ups found none",
+              "update() creates a new entry under another condition than 'no entry found' (facts %s): a known object gets a duplicate entry / an unknown one is dropped" % [sorted(ctx.facts_at(up, n)) for n in new])
+
+
+def one_side_only(ctx: Ctx, rep: Report, rid: str, spec: str, ent_i: int, side_i: int):
+    """In `spec` every `ent[...]` and `self.providers[...]` access uses the function's own side parameter: what is learnt about one side is
+    never written to, or read from, the other."""
+    f = ctx.prog.func(spec)
+    ps = f.params()
+    ent, side = ps[ent_i], ps[side_i]
+    bad = []
+    n = 0
+    for x in ctx.own_nodes(f):
+        if isinstance(x, ast.Subscript) and ((isinstance(x.value, ast.Name) and x.value.id == ent) or pat.match("self.providers", x.value) is not None):
+            n += 1
+            if not (isinstance(x.slice, ast.Name) and x.slice.id == side):
+                bad.append(x)
+    if n == 0:
+        raise AnalysisError("%s: no per-side access found" % spec)
+    rep.check(rid, "%s|one-side" % f.name, ctx.line(f, bad[0]) if bad else f, not bad, "%d per-side accesses, all on `%s`" % (n, side),
+              "%s accesses `%s`: information about side `%s` is mixed with another side" % (f.name, ast.unparse(bad[0]) if bad else "", side))
+
+
+def refresh_writes_through(ctx: Ctx, rep: Report, rid: str):
+    """unconditionally_get_latest - how the provider's answer becomes state: asked by the entry's id on that side (no cache), and every field
+    of the answer (type, path, hash, size, mtime, existence) is written to that side on every path once info was found."""
+    f = ctx.prog.func("SyncState.unconditionally_get_latest")
+    ent, side = f.params()[1:3]
+    one_side_only(ctx, rep, rid, "SyncState.unconditionally_get_latest", 1, 2)
+    one_side_only(ctx, rep, rid, "SyncState.unconditionally_get_no_info", 1, 2)
+    g = ctx.cfg(f)
+    from sa.util import method_calls
+    q = [c for c in method_calls(ctx, f, "self.providers[%s]" % side, "info_oid") if c.args and pat.match("%s[%s].oid" % (ent, side), c.args[0]) is not None]
+    fresh = bool(q) and all(any(k.arg == "use_cache" and isinstance(k.value, ast.Constant) and k.value.value is False for k in c.keywords) for c in q)
+    rep.check(rid, "get_latest|asks-provider", f, fresh, "info_oid(ent[side].oid, use_cache=False)",
+              "the refresh no longer asks the provider for the entry's id with the cache bypassed: the 'truth' it records may be the provider's cached (stale) answer")
+    infos = {(n.targets[0] if isinstance(n, ast.Assign) else n.target).id for n in ctx.own_nodes(f) if isinstance(n, (ast.Assign, ast.AnnAssign)) and any(n.value is c for c in q)
+             and isinstance((n.targets[0] if isinstance(n, ast.Assign) else n.target), ast.Name)}
+    if len(infos) != 1:
+        raise AnalysisError("unconditionally_get_latest: the provider's answer is not bound to a single local")
+    info = sorted(infos)[0]
+    tests = [n for n in g.nodes if n.kind == "test" and pat.match("not %s" % info, n.ast) is not None]
+    if not tests:
+        raise AnalysisError("unconditionally_get_latest: `if not <info>` not found")
+    starts = [b for t in tests for (b, l) in g.succ[t.id] if l == "F"]
+    defs = {}
+    for n in ctx.own_nodes(f):
+        if isinstance(n, ast.Assign) and isinstance(n.targets[0], ast.Name):
+            defs.setdefault(n.targets[0].id, []).append(n.value)
+    for fld in ("otype", "path", "size", "mtime"):
+        def store(n, fld=fld):
+            r = cfg_root(n)
+            if r is None or not isinstance(r, ast.Assign) or pat.match("%s[%s].%s" % (ent, side, fld), r.targets[0]) is None:
+                return False
+            src = {ast.unparse(x) for x in ast.walk(r.value) if isinstance(x, ast.Attribute)}
+            for nm in [x.id for x in ast.walk(r.value) if isinstance(x, ast.Name)]:
+                for d in defs.get(nm, []):
+                    src |= {ast.unparse(x) for x in ast.walk(d) if isinstance(x, ast.Attribute)}
+            return "%s.%s" % (info, fld) in src
+        # the path store may be skipped only when the recorded path already equals the new one
+        skip = set()
+        for t in g.nodes:
+            if fld == "path" and t.kind == "test" and isinstance(t.ast, ast.Compare) and len(t.ast.ops) == 1 and "%s[%s].path" % (ent, side) in (ast.unparse(t.ast.left), ast.unparse(t.ast.comparators[0])):
+                if isinstance(t.ast.ops[0], ast.NotEq):
+                    skip.add((t.id, "F"))
+                elif isinstance(t.ast.ops[0], ast.Eq):
+                    skip.add((t.id, "T"))
+        pth = g.reach(starts, lambda n: n is g.exit, avoid=store, follow=lambda a, b, l: l != "exc" and (a, l) not in skip, include_src=True)
+        rep.check(rid, "get_latest|info.%s" % fld, f, pth is None, "%s[%s].%s := info.%s on every path" % (ent, side, fld, fld),
+                  "the provider's `%s` is not written to the state on every path of a successful refresh: the engine keeps acting on a stale %s" % (fld, fld),
+                  witness=describe_path(pth) if pth else None)
+    # hash: stored when it differs; files without a hash in the info ask hash_oid
+    hs = [n for n in ctx.own_nodes(f) if isinstance(n, ast.Assign) and pat.match("%s[%s].hash" % (ent, side), n.targets[0]) is not None]
+    from_info = [n for n in hs if ast.unparse(n.value) == "%s.hash" % info]
+    okh = bool(from_info) and all(not [t for t in extra_facts_local(ctx.facts_at(f, n), [("$A == $B", False), (info, True), ("%s[%s].oid is None" % (ent, side), False)])] for n in from_info)
+    rep.check(rid, "get_latest|info.hash", f, okh, "hash := info.hash whenever it differs",
+              "the provider's hash is not written to the state exactly when it differs from the recorded one: a content change found by the refresh is missed")
+
+
+def extra_facts_local(facts, allowed):
+    from sa.util import extra_facts
+    return extra_facts(facts, allowed)
